@@ -163,3 +163,129 @@ PROPS["C01"] = dict(
          "Non-trivial = at least one I/O event; distinct = distinct requests.",
     trusted_base=["Expr::evaluate as modelled in Hpbf/Expr.lean (tied by the C15 check)"],
 )
+
+
+def c05_divergence(run, harnesses):
+    """Two-phase divergence check: the Lean model certifies each candidate program as halting or
+    divergent (state repetition); every back end at every level is then held to that verdict."""
+    import os
+    from common import read_lines
+    h = harnesses.get("debug") or list(harnesses.values())[0]
+    count = 400 if run.tier == "quick" else 20000
+    d = os.path.join(run.work, "divgen")
+    rc, out = h.run("divgen", run.seed, count, d, timeout=600)
+    reqs = read_lines(os.path.join(d, "divgen.req"))
+    certs = run.driver.ask(reqs, timeout=3000) if reqs else []
+    # long canonical prefixes for the divergent ones
+    todo = []
+    stats = dict(halts=0, diverges=0, unknown=0, unbalanced=0)
+    for r, c in zip(reqs, certs):
+        t = r.split(); p = c.split()
+        if not p or p[0] not in ("halts", "diverges"):
+            stats["unknown" if p and p[0] == "unknown" else "unbalanced"] += 1
+            continue
+        stats[p[0]] += 1
+        todo.append((t, p))
+    longq = [f"bftrace {t[1]} 150000 {t[3]} {t[4]} {t[5]}" for t, p in todo if p[0] == "diverges"]
+    longs = iter(run.driver.ask(longq, timeout=3000)) if longq else iter([])
+    lines = []
+    for t, p in todo:
+        if p[0] == "halts":
+            lines.append(f"divchk {t[1]} {t[3]} {t[4]} {t[5]} halts {p[2]} - 0")
+        else:
+            lp = next(longs).split()
+            lines.append(f"divchk {t[1]} {t[3]} {t[4]} {t[5]} diverges {p[2]} {lp[1] if len(lp) > 1 else '-'} 150000")
+    rq = os.path.join(run.work, "divchk.req")
+    open(rq, "w").write("".join(l + "\n" for l in lines))
+    run.stream_stats["divergence_certificates"] = stats
+    for profile, hh in harnesses.items():
+        name = f"divchk_{profile}"
+        rs, impls, models = run.run_stream(hh, name, reqfile=rq, timeout=3000)
+        run.judge_stream(hh, name, "div", rs, impls, models)
+
+
+import cli_tie, mem_ties
+
+PROPS["C16"] = dict(
+    modules=["Hpbf.Props.C16"],
+    translators=["cli_table.py"],
+    theorems=t("Hpbf.C16", "table_matches_source defaults_match_source exit_codes_in_source bits_table opt_table "
+               "kind_table defaults flag_tables_disjoint roles_file roles_limit roles_plain roles_length code_is_concat "
+               "lastOf_is_last last_flag_wins limit_spec safe_spec help_spec time_spec hasError_iff stderr_spec "
+               "action_spec print_kinds_do_not_execute help_or_error_does_nothing action_exit_codes dispatch_spec "
+               "file_error_spec parses_iff"),
+    streams=[],
+    extra=[cli_tie.c16_cli],
+    scope="Full on the front-end model: the flag table and defaults are REGENERATED from src/bin/hpbf.rs on every "
+          "run and proved equal to the model's (table_matches_source, defaults_match_source); the executed code is "
+          "the in-order concatenation of -f file contents and bare arguments (code_is_concat) under a declarative "
+          "role grammar; last flag of each family wins; limit/static/help; file errors and diagnostics (stderr_spec); "
+          "dispatch and exit codes (action_spec, dispatch_spec); print kinds never execute.",
+    not_proved="what the selected executor does is covered by C01-C05; process-level behaviour (stdout flushing, exit "
+               "status) is observed on the real binary, not proved",
+    rule="black box: the hpbf binary built from /repo's working tree (debug; release too in the thorough tier) is run on "
+         "random command lines (flags of every family in random order with repeats, -f files that exist / are missing / "
+         "are not UTF-8, bare code arguments incl. flag look-alikes, limits valid and invalid, stdin bytes); exit status, "
+         "stderr lines and stdout are compared with Cli.parseArgs/Cli.action (Lean driver) and with the canonical output "
+         "of the concatenated code at the selected width (prefix when --limit is given). Non-trivial = the command line "
+         "reached dispatch with a decidable expectation; distinct = distinct (args, stdin).",
+    trusted_base=["extract/cli_table.py reads the `match arg.as_str()` arms and the `let mut` defaults (fails closed)",
+                  "Rust's std flushes stdout at process exit"],
+)
+
+PROPS["C17"] = dict(
+    modules=["Hpbf.Props.C17"],
+    translators=["alloc_sites.py"],
+    theorems=t("Hpbf.C17", "alloc_fail_aborts write_alloc_fail_aborts no_growth_no_alloc alloc_ok_eq "
+               "original_code_ub repaired_code_aborts"),
+    streams=[dict(suite="mem", quick=1500, thorough=50000, judge="mem")],
+    extra=[mem_ties.c17_allocfail],
+    scope="On the model of Memory::make_accessible/write with a fallible allocator: a failed allocation always yields "
+          "`aborted` (no memory state is returned, so nothing is read or written afterwards); the allocator is not "
+          "consulted when no growth is needed; the original code's null-pointer copy is proved on a witness.",
+    not_proved="the model's `fixed` branch stands for `if ptr.is_null() { handle_alloc_error(..) }`; that this pattern is "
+               "present at every alloc_zeroed site is checked by the translator extract/alloc_sites.py, and the real "
+               "process behaviour (SIGABRT, never SIGSEGV, never a wrong continuation) by fault injection; allocation "
+               "failures inside Vec/Box growth are handled by the Rust standard library (abort)",
+    rule="fault injection: child processes under a global allocator that fails the k-th zero-initialised allocation made "
+         "during execution (k = 1..6, thorough 1..14), for right/left/both-growing programs x 4 back ends x levels x "
+         "widths; accepted endings: SIGABRT (allocation-failure abort), panic, or normal completion with the canonical "
+         "output when k exceeds the number of requests. Non-trivial = the run ended in the abort/panic path.",
+    trusted_base=["handle_alloc_error aborts (Rust std)", "the guard allocator of harness/src/bin/guard.rs"],
+)
+
+PROPS["C11"] = dict(
+    modules=["Hpbf.Props.C11"],
+    theorems=t("Hpbf.C11", "reach_iff_wr check_facts check_branch_target check_pc_le check_no_bad check_runCfg_not_bad "
+               "check_run_not_bad check_window check_window_zero step_frame_any step_frame_next step_frame_exit step_ptr "
+               "step_reads_touched step_touched_only check_step_window check_temps_lt check_init check_init_of_initOk "
+               "init_inv_of_initOk check_init_independent check_run_independent check_live_step live_step_of_liveOk "
+               "check_live_run check_live_dead live_dead_of_liveOk"),
+    streams=[dict(suite="bcwf", quick=800, thorough=40000, judge="wf"),
+             dict(suite="bcrun", quick=60, thorough=3000, judge="bcrun")],
+    scope="The contract checker BcWf.check is proved SOUND against the bytecode semantics for every program, "
+          "environment, fuel and mode: a checked program never reaches a malformed state (branch outside the program, "
+          "unimplemented operand form), touches the tape only inside its declared window, uses only declared "
+          "temporaries, never reads a temporary before writing it on ANY path (and its result is independent of the "
+          "initial temporaries), and every register temporary not declared live across a non-branch instruction is "
+          "dead after it (noninterference). The checker is then run (in Lean) on the exact bytecode the real generator "
+          "hands to the interpreter (2 registers, fusion) and to the JIT (11 registers, no fusion).",
+    not_proved="that translate ALWAYS produces bytecode accepted by the checker (for all programs) is not a theorem: it "
+               "is established per generated program by running the verified checker; a rejected bytecode is a violation "
+               "with the source program as replay",
+    rule="for generated programs x 4 widths x levels 0-3 x {(2 regs, fuse), (11 regs, no fuse)}: the bytecode produced "
+         "by bc::CodeGen::translate is sent to the Lean driver, which runs BcWf.check (reply ok / local / init / live); "
+         "the bytecode semantics used in the soundness proof is itself tied to the threaded interpreter (bcrun stream). "
+         "Non-trivial = every bytecode program; distinct = distinct (source, width, level, setting).",
+    trusted_base=["Bc.step models src/exec/bcint/ops.rs (tied by the bcrun stream)"],
+)
+
+PENDING = {}
+PENDING["C05"] = dict(
+    modules=["Hpbf.Props.C05"],
+    theorems=[],   # filled below
+    streams=[],
+    extra=[c05_divergence],
+    corpus=["diverge"], corpus_judge="div",
+    scope="", rule="", trusted_base=[],
+)
